@@ -7,6 +7,11 @@ MCSize   == [k \in MCKey |-> IF k = "c" THEN 600 ELSE 300]
 MCPP     == {"ax"}
 MCVal    == {"b"}
 MCLimits == {750, 1050}
+MCLimit1 == {750}
+MCKey2   == {"b", "c"}
+MCSize2  == [k \in MCKey2 |-> IF k = "c" THEN 600 ELSE 300]
+MCPP2    == {"c"}
+MCVal2   == {"b"}
 MCKey3   == {"a", "b", "c"}
 MCSize3  == [k \in MCKey3 |-> IF k = "c" THEN 600 ELSE 300]
 MCPP3    == {"a"}
